@@ -59,7 +59,12 @@ def execute(conf, hist):
     return G, M, outs
 
 
-def state_key(conf, G, M):
+def state_key(conf, G, M, hist=()):
+    """structural key of a state.  Histories that contain a read-only query bundle ('observe') are never merged with
+    anything else: a cache living outside the object (module level, functools) would make two states with identical
+    G.__dict__ behave differently afterwards, and such hidden state is exactly what those histories are there to expose."""
+    if any(op[0] == 'observe' for op in hist):
+        return digest(canon_impl(G), M.canon(), repr(hist))
     return digest(canon_impl(G), M.canon())
 
 
@@ -102,7 +107,7 @@ def _phase_a(chunk):
                     raise
                 except Exception as ex:
                     vj, cnt = [crash_violation(spec.prop, 'transition', h2, ex)], {}
-                key = None if dead else state_key(conf, G, M)
+                key = None if dead else state_key(conf, G, M, h2)
                 cls = M.classes[-1] if (M.classes and out == 'ok' and op[0] in ('add',)) else None
                 res.append((key, h2, out, exp, dead, vj, cnt, cls,
                             bool(spec.expand(conf, h2, G, M, outs)) and not dead))
@@ -159,10 +164,24 @@ class Result:
         self.classes = collections.Counter()
         self.counters = collections.Counter()
         self.sets = collections.defaultdict(set)
-        self.violations = []
+        self.violations = []       # one Violation per violation class (with .count), see add_viol
+        self._vc = {}
         self.state_hists = []     # one representative history per distinct state
         self.closed = False       # the search reached a fixpoint: no unexplored state is left at any depth
         self.dead = 0
+
+    def add_viol(self, j):
+        """keep the first witness of every violation class and count the rest — never drop a class because another
+        one (for instance a known finding) is frequent"""
+        import json as _json
+        k = j['property'] + '|' + j['sub'] + '|' + _json.dumps(j['sig'], sort_keys=True, default=repr)
+        if k in self._vc:
+            self._vc[k].count += 1
+        else:
+            v = _viol_from_json(j)
+            v.count = 1
+            self._vc[k] = v
+            self.violations.append(v)
 
     def merge_into(self, other):
         other.states += self.states
@@ -199,7 +218,7 @@ def bfs(spec, conf, alphabet, depth, seeds=(), seen=None, keep_states=False, wor
                 R.dead += 1
                 R.dead_seeds = getattr(R, 'dead_seeds', []) + [repr(h), repr(outs)]
                 continue
-            k = state_key(conf, G, M)
+            k = state_key(conf, G, M, h)
             if k in local:
                 continue
             local.add(k)
@@ -216,8 +235,8 @@ def bfs(spec, conf, alphabet, depth, seeds=(), seen=None, keep_states=False, wor
                     R.counters.update(cnt)
                     for k, v in sets.items():
                         R.sets[k] |= set(v)
-                    if len(R.violations) < max_viol:
-                        R.violations += [_viol_from_json(j) for j in viols]
+                    for j in viols:
+                        R.add_viol(j)
                     if keep_states:
                         R.state_hists.append(hist)
             R.per_depth.append(len(new_states))
@@ -234,8 +253,8 @@ def bfs(spec, conf, alphabet, depth, seeds=(), seen=None, keep_states=False, wor
                     if cls:
                         R.classes[cls] += 1
                     R.counters.update(cnt)
-                    if len(R.violations) < max_viol:
-                        R.violations += [_viol_from_json(j) for j in viols]
+                    for j in viols:
+                        R.add_viol(j)
                     if dead:
                         R.dead += 1
                         continue
